@@ -98,7 +98,7 @@ class FlaskHop:
     has_status_fn = True
 
     def __init__(self, w: World, path: str, sub: Optional[str], status_fn: str, dispatcher_kwargs: Dict[str, Any],
-                 blueprint_prefix: Optional[str] = None):
+                 blueprint_prefix: Optional[str] = None, earlier_app: bool = False):
         self.w = w
         self.node = 'flask'
         self.log: Any = _Log()
@@ -118,6 +118,13 @@ class FlaskHop:
             d = self.rpc.add_endpoint(sub, error_handlers={}, **dispatcher_kwargs)
             d.add_methods(self.service.registry())
             _wrap_dispatch(w, d, self.node, self.log, 'sub')
+        if earlier_app:
+            # an application factory that has been called before (one application per test, a second worker ...): the
+            # module-level extension objects were already initialised for another application
+            first = flask.Flask('pjsim_flask_first')
+            self.rpc.init_app(first)
+            self.other.init_app(first)
+            w.probe('flask.extension_initialised_for_an_earlier_app')
         if blueprint_prefix:
             # the README layout: the extension is initialised on a blueprint that is mounted under a URL prefix
             bp = flask.Blueprint('pjsim_bp', 'pjsim_flask', url_prefix=blueprint_prefix)
